@@ -108,7 +108,7 @@ fn make_trains(rng: &mut Rng, shape: &[usize], slots: usize) -> Option<Vec<Train
 /// order[i] = index of the train whose next packet comes at position i; returns number enumerated
 fn merges(counts: &mut Vec<usize>, cur: &mut Vec<usize>, total: usize, idx: &mut u64, part: u64, f: &mut dyn FnMut(&[usize])) {
     if cur.len() == total {
-        if *idx % PARTS == part {
+        if *idx % PARTS == part && !crate::expired() {
             f(cur);
         }
         *idx += 1;
